@@ -122,6 +122,7 @@ class Interp:
         self.fid = 0
         self.oid = 0
         self._loops = {}
+        self._thresholds = {}
         self.extern = {}         # def path -> summary fn (filled by stdsum)
         self.contracts = {}      # (trait, method) -> summary fn for calls on type parameters
         self.on_call = []        # hooks(interp, frame, term, st, callee_name, args)
@@ -131,20 +132,31 @@ class Interp:
         self.stack = []          # def names of active frames
         self.visited = {}        # instance key -> count
         self.impl_index = None
+        self.join_threshold = 6  # callee exits are joined per outcome class when there are more outcomes than this
+        self.ts = None           # typestate hook object (engine.Analysis)
+        self.opaque_fn = None    # predicate(callee json): treat the call as an opaque total function
         self.cparams = {}        # const generic name -> global symbol (shared by all states)
         self.stats = {"steps": 0, "paths": 0, "calls": 0, "joins": 0, "loops_unrolled": 0, "loops_fix": 0}
         from . import stdsum
         stdsum.install(self)
 
     # =============================================================== logging
-    def oblige(self, kind, frame, bb, ok, detail="", st=None):
+    def oblige(self, kind, frame, bb, ok, detail="", st=None, label=""):
+        from ..facts import assert_site, call_site
         b = frame.body
         blk = b["blocks"][bb] if bb is not None else None
         sp = blk["tspan"] if blk else b["span"]
+        site = label
+        if blk is not None:
+            t = blk["term"]
+            if t["k"] == "assert":
+                site = assert_site(b, t)
+            elif t["k"] == "call":
+                site = call_site(b, t) + ((" " + label) if label else "")
         self.log.append({
             "t": "obl", "kind": kind, "fn": b["def"], "bb": bb, "file": sp["file"], "line": sp["line"],
-            "ok": bool(ok), "detail": detail, "ctx": tuple(self.stack[-6:]),
-            "inst": self.inst_key(frame),
+            "ok": bool(ok), "detail": detail, "ctx": tuple(self.stack[-6:]), "site": site,
+            "inst": self.inst_key(frame), "exp": sp.get("exp", False),
         })
 
     def observe(self, rec):
@@ -350,7 +362,7 @@ class Interp:
     def descend(self, st, v, s):
         k = s[0]
         if k == "f":
-            if isinstance(v, VAgg):
+            if isinstance(v, (VAgg, VClos)):
                 return v.elems[s[1]]
             raise Unsupported("field %d of %r" % (s[1], v))
         if k == "v":
@@ -404,6 +416,9 @@ class Interp:
         raise Unsupported("generalize %r" % (c0,))
 
     def write_raw(self, st, root, steps, val):
+        if st.ghost:
+            for k in [k for k in st.ghost if isinstance(k, tuple) and k and k[0] == "deref" and k[1] == root]:
+                del st.ghost[k]
         if not steps:
             st.mem[root] = val
             return
@@ -428,6 +443,10 @@ class Interp:
                 el = list(v.elems)
                 el[s[1]] = self.update(st, el[s[1]], rest, val)
                 return VAgg(v.kind, v.defn, el)
+            if isinstance(v, VClos):
+                el = list(v.elems)
+                el[s[1]] = self.update(st, el[s[1]], rest, val)
+                return VClos(v.defn, el, v.env)
             raise Unsupported("write field of %r" % (v,))
         if k == "v":
             if isinstance(v, VEnum) and rest and rest[0][0] == "f":
@@ -756,6 +775,8 @@ class Interp:
             return VRef(a.root, a.steps, rv["mut"])
         if k == "rawptr":
             a = self.resolve(frame, rv["place"], st)
+            if a.slice is not None:
+                return VSlice(a.root, a.steps, a.slice[0], a.slice[1], True)
             return VRef(a.root, a.steps, True)
         if k == "cast":
             v = self.eval_operand(frame, rv["op"], st)
@@ -855,6 +876,23 @@ class Interp:
             return out
         raise Unsupported("bool expr " + str(k))
 
+    def prove_bool(self, st, e, want):
+        """is bool expr e entailed to have truth value `want`?"""
+        k = e[0]
+        if k == "c":
+            return e[1] == want
+        if k == "not":
+            return self.prove_bool(st, e[1], not want)
+        if k == "cmp":
+            return st.prove_cmp(e[1] if want else NEG[e[1]], e[2], e[3])
+        if k == "sym":
+            return st.const_of(Lin.sym(e[1])) == (1 if want else 0)
+        if (k == "and" and want) or (k == "or" and not want):
+            return self.prove_bool(st, e[1], want) and self.prove_bool(st, e[2], want)
+        if (k == "and" and not want) or (k == "or" and want):
+            return self.prove_bool(st, e[1], want) or self.prove_bool(st, e[2], want)
+        return False
+
     # =============================================================== blocks
     def exec_block(self, frame, bb, st):
         """returns list of ('goto', bb, st) | ('ret', st, val)"""
@@ -947,7 +985,10 @@ class Interp:
             i = self.eval_operand(frame, t["index"], st)
             ln = self.eval_operand(frame, t["len"], st)
             detail = "index %s < len %s" % (st.describe(i.lin), st.describe(ln.lin))
-        self.oblige(kind, frame, bb, not bad, detail, st)
+        self.oblige(kind, frame, bb, (not bad) or self.prove_bool(st, c.e, want), detail, st)
+        if ak == "Overflow":
+            self.log[-1]["r_hi"] = st.interval(r.lin)[1]
+            self.log[-1]["r_lo"] = st.interval(r.lin)[0]
         good = self.branch(st, c.e, want)
         return [("goto", t["target"], s2) for s2 in good]
 
@@ -1045,6 +1086,13 @@ class Interp:
         res = callee.get("resolved")
         env = frame.env
         name = callee["def"]
+        if "ctor_adt" in callee:
+            if callee["ctor_is_enum"]:
+                v = callee["ctor_variant"]
+                return [(st, VEnum(callee["ctor_adt"], Lin.const(v), {v: tuple(args)}))]
+            return [(st, VAgg("struct", callee["ctor_adt"], args))]
+        if self.opaque_fn is not None and self.opaque_fn(callee):
+            return self.havoc_call(frame, st, args, dest_ty, "out-of-scope " + (res["def"] if res else name))
         # 1. rustc resolved it to a local body
         if res and res["local"] and res["def"] in self.f.bodies and res["ik"] == "item":
             body = self.f.bodies[res["def"]]
@@ -1168,8 +1216,8 @@ class Interp:
             for h in self.on_return:
                 h(self, fr, s2, val)
             res.append((s2, val))
-        if self.join_exits(body) and len(res) > 1:
-            res = self.join_outcomes(res, mark)
+        if len(res) > 1 and (self.join_exits(body) or len(res) > self.join_threshold):
+            res = self.join_outcomes(res, mark, args)
         return res
 
     def outcome_key(self, st, v, depth=2):
@@ -1186,12 +1234,37 @@ class Interp:
             return (v.e[1],)
         return ()
 
-    def join_outcomes(self, outs, mark):
+    def shape_sig(self, st, v, depth=0):
+        """constant discriminants of the enums inside a value (typestate signature of an object)"""
+        if depth > 4 or v is None:
+            return ()
+        if isinstance(v, VEnum):
+            c = st.const_of(v.disc)
+            if c is None:
+                return ("?",)
+            r = (c,)
+            for e in v.pay.get(c, ()):
+                r = r + self.shape_sig(st, e, depth + 1)
+            return r
+        if isinstance(v, (VAgg, VClos)):
+            r = ()
+            for e in v.elems:
+                r = r + self.shape_sig(st, e, depth + 1)
+            return r
+        return ()
+
+    def join_outcomes(self, outs, mark, args=()):
         from .join import join_pair
         groups = {}
         order = []
+        mrefs = [a for a in args if isinstance(a, VRef) and a.mut]
         for s2, val in outs:
-            k = self.outcome_key(s2, val)
+            k = self.outcome_key(s2, val, 3)
+            for a in mrefs:
+                try:
+                    k = k + ("|",) + self.shape_sig(s2, self.read_raw(s2, a.root, a.steps))
+                except Unsupported:
+                    pass
             if k not in groups:
                 groups[k] = (s2, val)
                 order.append(k)
@@ -1273,27 +1346,116 @@ class Interp:
             states = nxt
         if done:
             self.stats["loops_unrolled"] += 1
+            self.observe({"kind": "loop", "fn": fr.body["def"], "head": head, "mode": "unrolled",
+                          "inst": self.inst_key(fr)})
             return exits, rets
         del self.log[mark:]
-        # ---- 2. fixpoint with join/widening at the head
+        # ---- 2. fixpoint with join/widening at the head.  The head invariant is a disjunction keyed by the
+        #         typestate signature (partition keys of the stateful objects reachable from the frame);
+        #         those objects are summarised by their inferred object invariant.
         from .join import join_into
         self.stats["loops_fix"] += 1
         symmark = len(self.tab.info)
-        inv = st.copy()
-        key = ("loop", fr.fid, head)
+        sigstates = {}
+        th = self.thresholds(fr.body)
+
+        def add(stt, widen):
+            ch = False
+            for s1 in self.ts_split(fr, stt):
+                sig = self.ts_sig(fr, s1)
+                old = sigstates.get(sig)
+                if old is None:
+                    sigstates[sig] = s1
+                    ch = True
+                else:
+                    new, c = join_into(self, old, s1, symmark, ("loop", fr.fid, head, sig), widen=widen, thresholds=th)
+                    if c:
+                        sigstates[sig] = new
+                        ch = True
+            return ch
+
+        add(st.copy(), False)
         for it in range(MAX_FIX_ITERS):
             mark = len(self.log)
-            r = self.run_region(fr, head, inv.copy(), head, lbody)
-            new, changed = inv, False
-            for a in r["arrive"]:
-                new, ch = join_into(self, new, a, symmark, key, widen=(it >= 2))
-                changed = changed or ch
+            exits, rets, arrs = [], [], []
+            changed = False
+            for sig in list(sigstates):
+                inv = sigstates[sig]
+                r = self.run_region(fr, head, inv.copy(), head, lbody)
+                exits.extend(r["exit"])
+                rets.extend(r["ret"])
+                arrs.append((inv, r["arrive"]))
+            for inv, arrive in arrs:
+                for a in arrive:
+                    if add(a, it >= 2):
+                        changed = True
             if not changed:
-                return r["exit"], r["ret"]
+                ms = [self.loop_measure(fr, inv, arrive) for inv, arrive in arrs]
+                self.observe({"kind": "loop", "fn": fr.body["def"], "head": head, "mode": "fixpoint",
+                              "inst": self.inst_key(fr), "iters": it + 1, "disjuncts": len(sigstates),
+                              "measure": ms[0] if ms and all(m == ms[0] for m in ms) else None})
+                return exits, rets
             del self.log[mark:]
-            inv = new
         self.oblige("LOOP", fr, head, False, "no fixpoint for loop at bb%d after %d iterations" % (head, MAX_FIX_ITERS), st)
         return [], []
+
+    # typestate hooks (set by the engine): summarise stateful objects by their object invariant at loop heads
+    def ts_split(self, fr, st):
+        if self.ts is None:
+            return [st]
+        return self.ts.split(self, fr, st)
+
+    def ts_sig(self, fr, st):
+        if self.ts is None:
+            return ()
+        return self.ts.signature(self, fr, st)
+
+    def thresholds(self, body):
+        """integer constants of a body (+-1): candidate bounds for threshold widening"""
+        key = (body["def"], body.get("promoted"))
+        th = self._thresholds.get(key)
+        if th is None:
+            cs = set()
+
+            def op(o):
+                if isinstance(o, dict) and o.get("k") == "const" and "v" in o and isinstance(o["v"], int):
+                    cs.update((o["v"] - 1, o["v"], o["v"] + 1))
+            for blk in body["blocks"]:
+                for stt in blk["stmts"]:
+                    if stt["k"] == "assign":
+                        rv = stt["rv"]
+                        for kk in ("l", "r", "x", "op"):
+                            if kk in rv and isinstance(rv[kk], dict):
+                                op(rv[kk])
+                        for o in rv.get("ops", []):
+                            op(o)
+                t = blk["term"]
+                if t["k"] == "switch":
+                    for v, _ in t["targets"]:
+                        cs.update((v - 1, v, v + 1))
+                for a in t.get("args", []):
+                    op(a)
+            th = sorted(cs)
+            self._thresholds[key] = th
+        return th
+
+    def loop_measure(self, fr, inv, arrivals):
+        """a frame local holding a slice whose length provably shrinks by >= 1 on every back edge (L3)"""
+        if not arrivals:
+            return "no-back-edge"
+        for i in range(len(fr.body["locals"])):
+            v = inv.mem.get(("L", fr.fid, i))
+            if not isinstance(v, VSlice):
+                continue
+            ok = True
+            for a in arrivals:
+                va = a.mem.get(("L", fr.fid, i))
+                if not isinstance(va, VSlice) or not a.prove_ge0(v.n - va.n - 1):
+                    ok = False
+                    break
+            if ok:
+                return "slice-local-%d-shrinks" % i
+        return None
 
     # =============================================================== entry points
     def new_state(self):
